@@ -1005,8 +1005,8 @@ func (c *compiler) evalCallExpression(node *ast.CallExpression) (interface{}, er
 				return
 			}
 
-			rv := reflect.Indirect(reflect.New(arg))
-			args = append(args, rv)
+			// neither a helper context nor an options map: the argument is
+			// missing, it is not made up
 		}
 
 		if len(args) < rtNumIn {
@@ -1018,8 +1018,10 @@ func (c *compiler) evalCallExpression(node *ast.CallExpression) (interface{}, er
 				// check if last -1 is map
 				arg := rt.In(rtNumIn - 2)
 				hc(arg)
-				last := rt.In(rtNumIn - 1)
-				hc(last)
+				if len(args) == rtNumIn-1 {
+					last := rt.In(rtNumIn - 1)
+					hc(last)
+				}
 			case 1:
 				// check if help or map
 				last := rt.In(rtNumIn - 1)
